@@ -1,30 +1,139 @@
 import PoxModel.Proofs.ConnHist
 import PoxModel.Proofs.ConnL
+import PoxModel.Proofs.ConnLInv
 /-! # C09 — connection lifecycle events and the connection registry stay consistent
 
-`run R ops` (Model/Conn.lean; `R = Cfg.rv v`: the code with fixes D03, C09-1, C09-2, C09-3, and — iff `v` — the proposed
-fix C09-5; `v = false` is /repo as it stands, every theorem holds for both values) is the controller side of any number of OpenFlow connections under an
-arbitrary history `ops` of accepts, message arrivals, EOFs, component-initiated disconnects, socket failures and
-`sendToDPID` calls; `(run R ops).2` is the history (newest step first) of what each operation made observable:
-events on the nexus / on the connection, messages written, `_connect` calls, `sendToDPID` results, closes.
-All theorems hold for every history (no bound on length, connections or datapath ids).  The repaired configuration is
-the code with fixes D03, C09-1, C09-2, C09-3 (fixes/*.diff); the `…_defect` theorems show, on the model of the code as
-first read (`Cfg.head`), the witness each fix removes. -/
+`run cfg ops` (Model/Conn.lean) is the controller side of any number of OpenFlow connections under an arbitrary history
+`ops` of accepts, message arrivals, EOFs, component-initiated disconnects, socket failures and `sendToDPID` calls;
+`(run cfg ops).2` is the history (newest step first) of what each operation made observable: events on the nexus / on the
+connection, messages written, `_connect` calls, `sendToDPID` results, closes.  Every theorem holds for every history (no
+bound on length, connections or datapath ids).
+
+* **The tree as it stands** is `Cfg.repaired` (= `Cfg.rv true`): `/repo` contains the repairs D03, C09-1, C09-2, C09-3,
+  C09-5, and C09-6 (`stopIfDisc` in the listener model).  The headline theorems (`up_once`, `up_raised`, `down_once`,
+  `registry_exact_partial`, `registry_exact_no_overlap`, `early_ps_partial`, `close_only_when_lost`, and for re-entrant
+  listeners `up_once_listeners`, `down_once_listeners`) are about it.  What each one says is the `def` it is stated with.
+* Two statements are named `…_partial` because they are weaker than the property's clause, and the file proves that the
+  clause itself is false for the code (`early_ps_full_defect`; `registry_exact_full_defect` = open finding C09-4).
+* The `…_v` theorems are the same statements for `Cfg.rv v`, both values of `v` (`v = false` = the commit of C09-5 reverted):
+  the check reads the variant off the tree under test, so the theorems still apply to a reverted tree.
+* The last part holds regression witnesses: the behaviour each committed repair removed, on the model of the reverted code. -/
 namespace Pox.C09
 open Pox.Conn
 
-variable (v : Bool)
-local notation "R" => Cfg.rv v
+/-! ## What the theorems say -/
 
 /-- **up_once.**  For every history and connection, ConnectionUp is raised at most once (on the nexus, `b = true`, and
 on the connection, `b = false`); and the step that raises it is the arrival, on that connection, of a barrier reply —
 or of the BAD_REQUEST/BAD_TYPE error the code accepts as "barrier unsupported" — whose xid is that of the barrier
 request the controller wrote in answer to the most recent features reply of that connection (which therefore came first). -/
-theorem up_once (ops : List Op) (b : Bool) (c : Nat) :
-    (outs (run R ops).2).count (upEv b c) ≤ 1 ∧
-    ∀ later op o earlier a, (run R ops).2 = later ++ (op, o) :: earlier → Out.ev ⟨b, .up, c, a⟩ ∈ o →
+def UpOnce (cfg : Cfg) (ops : List Op) (b : Bool) (c : Nat) : Prop :=
+    (outs (run cfg ops).2).count (upEv b c) ≤ 1 ∧
+    ∀ later op o earlier a, (run cfg ops).2 = later ++ (op, o) :: earlier → Out.ev ⟨b, .up, c, a⟩ ∈ o →
       ∃ x d fo, (op = .msg c (.barrierReply x) ∨ op = .msg c (.error x OFPET_BAD_REQUEST OFPBRC_BAD_TYPE)) ∧
-        lastFeat earlier c = some (d, fo) ∧ Out.sent c OFPT_BARRIER_REQUEST x ∈ fo := by
+        lastFeat earlier c = some (d, fo) ∧ Out.sent c OFPT_BARRIER_REQUEST x ∈ fo
+
+/-- **down_once.**  ConnectionDown is raised at most once per connection; never for a connection that was not
+announced, and only in a step after the one that announced it; a connection that was announced and that the task has
+closed (EOF, read error, select error) has had exactly one; and an announced connection that is disconnected for any
+reason has had exactly one — unless its socket failed during a send and the task has not closed it yet (the code defers
+the event to that moment). -/
+def DownOnce (cfg : Cfg) (ops : List Op) (b : Bool) (c : Nat) : Prop :=
+    (outs (run cfg ops).2).count (downEv b c) ≤ 1 ∧
+    ((outs (run cfg ops).2).count (downEv b c) = 1 → (outs (run cfg ops).2).count (upEv b c) = 1) ∧
+    (∀ later op o earlier a, (run cfg ops).2 = later ++ (op, o) :: earlier → Out.ev ⟨b, .down, c, a⟩ ∈ o →
+      (outs earlier).count (upEv b c) = 1) ∧
+    ((outs (run cfg ops).2).count (upEv b c) = 1 → Out.closed c ∈ outs (run cfg ops).2 →
+      (outs (run cfg ops).2).count (downEv b c) = 1) ∧
+    ((outs (run cfg ops).2).count (upEv b c) = 1 → ((run cfg ops).1.conns c).disc = true →
+      (outs (run cfg ops).2).count (downEv b c) = 1 ∨
+        (((run cfg ops).1.conns c).broken = true ∧ Out.closed c ∉ outs (run cfg ops).2))
+
+/-- **registry_exact_partial.**  With C09-5 repaired (`v = true`) unconditionally, and for the code as it stands provided each
+connection's features replies all name the same datapath id: whatever the nexus
+has registered under a key is a connection that exists, is announced (ConnectionUp raised), is not disconnected, and has
+that key as its datapath id (so no `None` key); the entry under a key is *exactly* the connection most recently
+registered under it (`nexus._connect`: at ConnectionUp, or at a later features reply) if that connection is still live
+and still has that datapath id, and absent otherwise; and `sendToDPID d` answers `False` and writes nothing when `d` has no entry, and otherwise writes
+the bytes to exactly that connection's socket (or, if that socket has failed, writes nothing) and answers `True`. -/
+def RegistryExactPartial (cfg : Cfg) (ops : List Op) : Prop :=
+    (∀ k c, (run cfg ops).1.reg k = some c →
+      c < (run cfg ops).1.n ∧ (∃ d, k = some d) ∧ ((run cfg ops).1.conns c).dpid = k ∧
+      (outs (run cfg ops).2).count (upEv true c) = 1 ∧ ((run cfg ops).1.conns c).disc = false) ∧
+    (∀ k, (run cfg ops).1.reg k =
+      (lastReg (run cfg ops).2 k).bind fun c =>
+        if ((run cfg ops).1.conns c).disc = true ∨ ((run cfg ops).1.conns c).dpid ≠ k then none else some c) ∧
+    (∀ d x, (step cfg (run cfg ops).1 (.sendTo d x)).2 =
+      match (run cfg ops).1.reg (some d) with
+      | none => [.sendRet false]
+      | some c => (if ((run cfg ops).1.conns c).broken = true then [] else [.sent c OFPT_BARRIER_REQUEST x]) ++ [.sendRet true])
+
+/-- **early_ps_partial.**  The step that raises ConnectionUp for `c` produces exactly: the registration, HandshakeComplete,
+ConnectionUp (nexus, connection), FeaturesReceived (nexus, connection), and then one PortStatus pair (nexus, connection)
+for each port-status message that arrived on `c` since its most recent features reply — all of them, once each, in
+arrival order; and no PortStatus event for `c` exists in a history in which `c` has not been announced.  (Port-status
+that arrived before that features reply is dropped: the features reply's port list supersedes it.) -/
+def EarlyPsPartial (cfg : Cfg) (ops : List Op) (b : Bool) (c : Nat) : Prop :=
+    (∀ later op o earlier a, (run cfg ops).2 = later ++ (op, o) :: earlier → Out.ev ⟨b, .up, c, a⟩ ∈ o →
+      ∃ d fo, lastFeat earlier c = some (d, fo) ∧
+        o = finHead (some d) c ++ (psSince earlier c).flatMap fun n => ev2 .portStatus c n) ∧
+    ((outs (run cfg ops).2).count (upEv true c) = 0 → ∀ b' n, Out.ev ⟨b', .portStatus, c, n⟩ ∉ outs (run cfg ops).2)
+
+/-- **close_only_when_lost.**  In every reachable state the task closes a connection only on EOF / read error / select
+error, or when a message arrives on a connection that was already disconnected (by a failed send, a failed handshake
+barrier, or a component's `disconnect()`). -/
+def CloseOnlyWhenLost (cfg : Cfg) (ops : List Op) (op : Op) (c : Nat) : Prop :=
+    Out.closed c ∈ (step cfg (run cfg ops).1 op).2 →
+    op = .eof c ∨ ∃ m, op = .msg c m ∧ ((run cfg ops).1.conns c).disc = true
+
+/-- **registry_exact_no_overlap.**  If, in addition, at no point of the history two live announced connections claim the
+same datapath id (a datapath's old connection is gone, as far as the controller knows, before the new one is announced),
+then the literal statement holds: the datapath ids reachable through the nexus are exactly those with a live, fully
+handshaken connection, and the entry is that connection. -/
+def RegistryExactNoOverlap (cfg : Cfg) (ops : List Op) (c d : Nat) : Prop :=
+    (run cfg ops).1.reg (some d) = some c ↔ LiveUp (run cfg ops).1 c d
+
+/-- **up_raised** (the "if" direction).  A live connection that is still in the handshake and whose socket works receives a
+features reply: the controller writes a barrier request with a fresh xid `x`; and if, from then on, nothing loses that
+connection (no EOF, no `disconnect()`), nothing breaks its socket, and no further features reply, barrier reply or
+barrier-unsupported error for `x` arrives on it — anything else may happen, on it and on every other connection — then
+the barrier reply carrying `x` raises ConnectionUp on the nexus and on the connection, and so does the
+BAD_REQUEST/BAD_TYPE error carrying `x`. -/
+def UpRaised (cfg : Cfg) (ops mid : List Op) (c d : Nat) : Prop :=
+  c < (run cfg ops).1.n → ((run cfg ops).1.conns c).up = false → ((run cfg ops).1.conns c).disc = false →
+  ((run cfg ops).1.conns c).broken = false → (∀ op ∈ mid, Harmless c ((run cfg ops).1.nextXid + 2) op) →
+    Out.sent c OFPT_BARRIER_REQUEST ((run cfg ops).1.nextXid + 2) ∈ (step cfg (run cfg ops).1 (.msg c (.featuresReply d))).2 ∧
+    ∀ b, upEv b c ∈ (step cfg (run cfg (ops ++ .msg c (.featuresReply d) :: mid)).1
+                        (.msg c (.barrierReply ((run cfg ops).1.nextXid + 2)))).2 ∧
+         upEv b c ∈ (step cfg (run cfg (ops ++ .msg c (.featuresReply d) :: mid)).1
+                        (.msg c (.error ((run cfg ops).1.nextXid + 2) OFPET_BAD_REQUEST OFPBRC_BAD_TYPE))).2
+
+/-- **up_once_listeners.**  In the listener model (`runL`: application listeners that send, call `sendToDPID` or disconnect
+the connection from inside the nexus-level ConnectionUp, and call `sendToDPID` from inside ConnectionDown), for EVERY such
+listener behaviour: ConnectionUp is raised at most once per connection and level; the step that raises it comes before any
+ConnectionDown of that connection and (on either level) before which the nexus-level ConnectionUp had not been raised;
+and — this is what C09-6 repaired — the step that raises the connection-level ConnectionUp raises no ConnectionDown for
+that connection (a listener that drops the connection stops the announcement). -/
+def UpOnceListeners (cfg : Cfg) (l : Lst) (ops : List Op) (b : Bool) (c : Nat) : Prop :=
+  (outs (runL cfg l ops).2).count (upEv b c) ≤ 1 ∧
+  ∀ later op o earlier, (runL cfg l ops).2 = later ++ (op, o) :: earlier → upEv b c ∈ o →
+    (∀ b', (outs earlier).count (downEv b' c) = 0) ∧ (outs earlier).count (upEv true c) = 0 ∧
+    (b = false → ∀ b', downEv b' c ∉ o)
+
+/-- **down_once_listeners.**  In the listener model, for every listener behaviour: ConnectionDown is raised at most once per
+connection and level, and only for a connection that was announced on the nexus. -/
+def DownOnceListeners (cfg : Cfg) (l : Lst) (ops : List Op) (b : Bool) (c : Nat) : Prop :=
+  (outs (runL cfg l ops).2).count (downEv b c) ≤ 1 ∧
+  ((outs (runL cfg l ops).2).count (downEv b c) = 1 → (outs (runL cfg l ops).2).count (upEv true c) = 1)
+
+/-! ## Either variant: `Cfg.rv v` (`v = true` is the tree as it stands, `v = false` has the commit of C09-5 reverted) -/
+
+section variants
+variable (v : Bool)
+local notation "R" => Cfg.rv v
+
+theorem up_once_v (ops : List Op) (b : Bool) (c : Nat) : UpOnce (Cfg.rv v) ops b c := by
+  unfold UpOnce
   have h := tinv_run (v := v) ops
   refine ⟨?_, ?_⟩
   · rw [h.upCnt b c]; split <;> omega
@@ -32,21 +141,9 @@ theorem up_once (ops : List Op) (b : Bool) (c : Nat) :
     obtain ⟨x, d, fo, h1, h2, h3, _⟩ := (allSteps_split _ later earlier (op, o) h.steps hsplit).1 b c a he
     exact ⟨x, d, fo, h1, h2, h3⟩
 
-/-- **down_once.**  ConnectionDown is raised at most once per connection; never for a connection that was not
-announced, and only in a step after the one that announced it; a connection that was announced and that the task has
-closed (EOF, read error, select error) has had exactly one; and an announced connection that is disconnected for any
-reason has had exactly one — unless its socket failed during a send and the task has not closed it yet (the code defers
-the event to that moment). -/
-theorem down_once (ops : List Op) (b : Bool) (c : Nat) :
-    (outs (run R ops).2).count (downEv b c) ≤ 1 ∧
-    ((outs (run R ops).2).count (downEv b c) = 1 → (outs (run R ops).2).count (upEv b c) = 1) ∧
-    (∀ later op o earlier a, (run R ops).2 = later ++ (op, o) :: earlier → Out.ev ⟨b, .down, c, a⟩ ∈ o →
-      (outs earlier).count (upEv b c) = 1) ∧
-    ((outs (run R ops).2).count (upEv b c) = 1 → Out.closed c ∈ outs (run R ops).2 →
-      (outs (run R ops).2).count (downEv b c) = 1) ∧
-    ((outs (run R ops).2).count (upEv b c) = 1 → ((run R ops).1.conns c).disc = true →
-      (outs (run R ops).2).count (downEv b c) = 1 ∨
-        (((run R ops).1.conns c).broken = true ∧ Out.closed c ∉ outs (run R ops).2)) := by
+
+theorem down_once_v (ops : List Op) (b : Bool) (c : Nat) : DownOnce (Cfg.rv v) ops b c := by
+  unfold DownOnce
   have h := tinv_run (v := v) ops
   have hs := h.sinv
   refine ⟨?_, ?_, ?_, ?_, ?_⟩
@@ -79,24 +176,9 @@ theorem down_once (ops : List Op) (b : Bool) (c : Nat) :
       have := hs.lost c hu' hd (by simpa using hdr)
       simp [this.1, this.2]
 
-/-- **registry_exact.**  With C09-5 repaired (`v = true`) unconditionally, and for the code as it stands provided each
-connection's features replies all name the same datapath id: whatever the nexus
-has registered under a key is a connection that exists, is announced (ConnectionUp raised), is not disconnected, and has
-that key as its datapath id (so no `None` key); the entry under a key is *exactly* the connection most recently
-registered under it (`nexus._connect`: at ConnectionUp, or at a later features reply) if that connection is still live
-and still has that datapath id, and absent otherwise; and `sendToDPID d` answers `False` and writes nothing when `d` has no entry, and otherwise writes
-the bytes to exactly that connection's socket (or, if that socket has failed, writes nothing) and answers `True`. -/
-theorem registry_exact (ops : List Op) (hsd : v = true ∨ SameDpid ops) :
-    (∀ k c, (run R ops).1.reg k = some c →
-      c < (run R ops).1.n ∧ (∃ d, k = some d) ∧ ((run R ops).1.conns c).dpid = k ∧
-      (outs (run R ops).2).count (upEv true c) = 1 ∧ ((run R ops).1.conns c).disc = false) ∧
-    (∀ k, (run R ops).1.reg k =
-      (lastReg (run R ops).2 k).bind fun c =>
-        if ((run R ops).1.conns c).disc = true ∨ ((run R ops).1.conns c).dpid ≠ k then none else some c) ∧
-    (∀ d x, (step R (run R ops).1 (.sendTo d x)).2 =
-      match (run R ops).1.reg (some d) with
-      | none => [.sendRet false]
-      | some c => (if ((run R ops).1.conns c).broken = true then [] else [.sent c OFPT_BARRIER_REQUEST x]) ++ [.sendRet true]) := by
+
+theorem registry_exact_partial_v (ops : List Op) (hsd : v = true ∨ SameDpid ops) : RegistryExactPartial (Cfg.rv v) ops := by
+  unfold RegistryExactPartial
   have h := tinv_run (v := v) ops
   have hr := rinv_run (v := v) ops hsd
   refine ⟨?_, hr.exact, ?_⟩
@@ -119,16 +201,9 @@ theorem registry_exact (ops : List Op) (hsd : v = true ∨ SameDpid ops) :
       · rw [sendRaw_broken _ _ _ _ a4 hb]; simp [hb, disconnect_true_outs]
       · rw [sendRaw_ok _ _ _ _ a4 (by simpa using hb)]; simp [hb]
 
-/-- **early_ps.**  The step that raises ConnectionUp for `c` produces exactly: the registration, HandshakeComplete,
-ConnectionUp (nexus, connection), FeaturesReceived (nexus, connection), and then one PortStatus pair (nexus, connection)
-for each port-status message that arrived on `c` since its most recent features reply — all of them, once each, in
-arrival order; and no PortStatus event for `c` exists in a history in which `c` has not been announced.  (Port-status
-that arrived before that features reply is dropped: the features reply's port list supersedes it.) -/
-theorem early_ps (ops : List Op) (b : Bool) (c : Nat) :
-    (∀ later op o earlier a, (run R ops).2 = later ++ (op, o) :: earlier → Out.ev ⟨b, .up, c, a⟩ ∈ o →
-      ∃ d fo, lastFeat earlier c = some (d, fo) ∧
-        o = finHead (some d) c ++ (psSince earlier c).flatMap fun n => ev2 .portStatus c n) ∧
-    ((outs (run R ops).2).count (upEv true c) = 0 → ∀ b' n, Out.ev ⟨b', .portStatus, c, n⟩ ∉ outs (run R ops).2) := by
+
+theorem early_ps_partial_v (ops : List Op) (b : Bool) (c : Nat) : EarlyPsPartial (Cfg.rv v) ops b c := by
+  unfold EarlyPsPartial
   have h := tinv_run (v := v) ops
   refine ⟨?_, ?_⟩
   · intro later op o earlier a hsplit he
@@ -140,12 +215,10 @@ theorem early_ps (ops : List Op) (b : Bool) (c : Nat) :
     simp only at this
     simp [this] at hu
 
-/-- **close_only_when_lost.**  In every reachable state the task closes a connection only on EOF / read error / select
-error, or when a message arrives on a connection that was already disconnected (by a failed send, a failed handshake
-barrier, or a component's `disconnect()`). -/
-theorem close_only_when_lost (ops : List Op) (op : Op) (c : Nat)
-    (h : Out.closed c ∈ (step R (run R ops).1 op).2) :
-    op = .eof c ∨ ∃ m, op = .msg c m ∧ ((run R ops).1.conns c).disc = true := by
+
+theorem close_only_when_lost_v (ops : List Op) (op : Op) (c : Nat) : CloseOnlyWhenLost (Cfg.rv v) ops op c := by
+  unfold CloseOnlyWhenLost
+  intro h
   revert h
   apply step_elim (run R ops).1 op (tinv_run (v := v) ops).sinv (fun r => Out.closed c ∈ r.2 →
     op = .eof c ∨ ∃ m, op = .msg c m ∧ ((run R ops).1.conns c).disc = true)
@@ -178,25 +251,88 @@ theorem close_only_when_lost (ops : List Op) (op : Op) (c : Nat)
     intros
     simp_all [ev2, disconnect_true_outs, mem_disconnect_outs, downEv]
 
-/-- **registry_exact_no_overlap.**  If, in addition, at no point of the history two live announced connections claim the
-same datapath id (a datapath's old connection is gone, as far as the controller knows, before the new one is announced),
-then the literal statement holds: the datapath ids reachable through the nexus are exactly those with a live, fully
-handshaken connection, and the entry is that connection. -/
-theorem registry_exact_no_overlap (ops : List Op) (hsd : v = true ∨ SameDpid ops) (hno : NoOverlapAlong v (init, []) ops)
-    (c d : Nat) :
-    (run R ops).1.reg (some d) = some c ↔ LiveUp (run R ops).1 c d := by
+
+theorem registry_exact_no_overlap_v (ops : List Op) (hsd : v = true ∨ SameDpid ops) (hno : NoOverlapAlong v (init, []) ops)
+    (c d : Nat) : RegistryExactNoOverlap (Cfg.rv v) ops c d := by
+  unfold RegistryExactNoOverlap
   constructor
   · intro hk
     obtain ⟨a1, a2, a3, a4⟩ := (rinv_run (v := v) ops hsd).sound _ c hk
     exact ⟨a1, a3, a4, a2⟩
   · exact complete_run (v := v) ops hsd hno c d
 
+
+
+theorem up_raised_v (ops mid : List Op) (c d : Nat) : UpRaised (Cfg.rv v) ops mid c d := by
+  unfold UpRaised
+  intro hc hu hd hb hm
+  have ht := tinv_run (v := v) ops
+  obtain ⟨hp, hsent⟩ := pending_after_features (v := v) (run R ops).1 c d ht.sinv hc hu hd hb
+  refine ⟨hsent, ?_⟩
+  have hs1 := sinv_step (v := v) (run R ops).1 (.msg c (.featuresReply d)) ht.sinv
+  have hb1 := broken_stable (v := v) (run R ops).1 (.msg c (.featuresReply d)) c ht.sinv hb (by simp)
+  obtain ⟨hs2, hp2⟩ := pending_foldl (v := v) mid _ c _ hs1 hp hb1 hm
+  have hrun : (run R (ops ++ .msg c (.featuresReply d) :: mid)).1 =
+      mid.foldl (stepS R) (step R (run R ops).1 (.msg c (.featuresReply d))).1 := by
+    rw [run_append_fst]; rfl
+  rw [hrun]
+  obtain ⟨f1, f2⟩ := finish_of_pending (v := v) _ c _ hs2 hp2
+  intro b
+  rw [f1, f2]
+  exact ⟨up_in_finish _ c b, up_in_finish _ c b⟩
+
 /-- **listeners_none_is_model.**  The driver executes `runL` (Model/ConnL.lean: the model with application listeners that
 re-enter the controller from inside ConnectionUp / ConnectionDown, which the correspondence run also exercises); without
 such listeners it is, for every configuration and history, the model the theorems above are about. -/
 theorem listeners_none_is_model (cfg : Cfg) (ops : List Op) : runL cfg Lst.none ops = run cfg ops := runL_none cfg ops
 
-/-! ## The statements the code does not satisfy, with their witnesses -/
+
+theorem up_once_listeners_v (l : Lst) (hl : l.stopIfDisc = true) (ops : List Op) (b : Bool) (c : Nat) :
+    UpOnceListeners (Cfg.rv v) l ops b c := by
+  unfold UpOnceListeners
+  have h := linv_runL (v := v) l ops
+  refine ⟨?_, ?_⟩
+  · cases b
+    · have := h.upF c; unfold U at this; split at this <;> omega
+    · rw [h.upT c]; unfold U; split <;> omega
+  · intro later op o earlier hsplit hm
+    obtain ⟨a1, a2, a3⟩ := allStepsL_split _ _ later earlier (op, o) h.steps hsplit b c hm
+    exact ⟨a1, a2, a3 hl⟩
+
+theorem down_once_listeners_v (l : Lst) (ops : List Op) (b : Bool) (c : Nat) : DownOnceListeners (Cfg.rv v) l ops b c := by
+  unfold DownOnceListeners
+  have h := linv_runL (v := v) l ops
+  refine ⟨?_, ?_⟩
+  · rw [h.down b c]; unfold D; split <;> omega
+  · rw [h.down b c, h.upT c]; unfold D U
+    intro hd
+    have : ((runL R l ops).1.conns c).downRaised = true := by
+      by_cases hh : ((runL R l ops).1.conns c).downRaised = true
+      · exact hh
+      · simp [hh] at hd
+    simp [h.sinv.downUp c this]
+
+end variants
+
+/-! ## The tree as it stands: `Cfg.repaired` (`/repo` with D03, C09-1, C09-2, C09-3, C09-5, C09-6) -/
+
+theorem up_once (ops : List Op) (b : Bool) (c : Nat) : UpOnce Cfg.repaired ops b c := up_once_v true ops b c
+theorem down_once (ops : List Op) (b : Bool) (c : Nat) : DownOnce Cfg.repaired ops b c := down_once_v true ops b c
+theorem registry_exact_partial (ops : List Op) : RegistryExactPartial Cfg.repaired ops := registry_exact_partial_v true ops (Or.inl rfl)
+theorem early_ps_partial (ops : List Op) (b : Bool) (c : Nat) : EarlyPsPartial Cfg.repaired ops b c := early_ps_partial_v true ops b c
+theorem close_only_when_lost (ops : List Op) (op : Op) (c : Nat) : CloseOnlyWhenLost Cfg.repaired ops op c := close_only_when_lost_v true ops op c
+theorem registry_exact_no_overlap (ops : List Op) (hno : NoOverlapAlong true (init, []) ops) (c d : Nat) :
+    RegistryExactNoOverlap Cfg.repaired ops c d := registry_exact_no_overlap_v true ops (Or.inl rfl) hno c d
+theorem up_raised (ops mid : List Op) (c d : Nat) : UpRaised Cfg.repaired ops mid c d := up_raised_v true ops mid c d
+/-- for every listener behaviour, with `_finish_connecting` as it is in `/repo` (it stops when a listener dropped the connection) -/
+theorem up_once_listeners (up : Option UpAct) (down : Bool) (ops : List Op) (b : Bool) (c : Nat) :
+    UpOnceListeners Cfg.repaired { up := up, down := down, stopIfDisc := true } ops b c :=
+  up_once_listeners_v true _ rfl ops b c
+theorem down_once_listeners (up : Option UpAct) (down : Bool) (ops : List Op) (b : Bool) (c : Nat) :
+    DownOnceListeners Cfg.repaired { up := up, down := down, stopIfDisc := true } ops b c :=
+  down_once_listeners_v true _ ops b c
+
+/-! ## The clauses the code does not satisfy, with their witnesses (on the tree as it stands) -/
 
 /-- a complete handshake of connection `c` for datapath `d`; `x` is the xid of the controller's barrier request -/
 def hs (c d x : Nat) : List Op :=
@@ -204,50 +340,28 @@ def hs (c d x : Nat) : List Op :=
 
 /-- the literal reading of the property: *every* datapath id that has a live, announced connection is reachable -/
 def registry_exact_full : Prop :=
-  ∀ ops : List Op, SameDpid ops → ∀ c d, c < (run Cfg.current ops).1.n → ((run Cfg.current ops).1.conns c).up = true →
-    ((run Cfg.current ops).1.conns c).disc = false → ((run Cfg.current ops).1.conns c).dpid = some d →
-    ∃ c', (run Cfg.current ops).1.reg (some d) = some c'
+  ∀ ops : List Op, ∀ c d, c < (run Cfg.repaired ops).1.n → ((run Cfg.repaired ops).1.conns c).up = true →
+    ((run Cfg.repaired ops).1.conns c).disc = false → ((run Cfg.repaired ops).1.conns c).dpid = some d →
+    ∃ c', (run Cfg.repaired ops).1.reg (some d) = some c'
 
 /-- a datapath connects twice (0, then 1) and the NEWER connection is lost first: connection 0 is still live and
 announced, but the registry (which keeps one connection per datapath id and has no fallback) no longer reaches 5.
-Not repaired (needs a per-datapath stack of connections): known finding C09-4. -/
+Not repaired (needs a per-datapath stack of connections): open finding C09-4. -/
 def orphanOps : List Op := [.connect] ++ hs 0 5 6 ++ [.connect] ++ hs 1 5 12 ++ [.eof 1]
 
 theorem registry_exact_full_defect : ¬ registry_exact_full := by
   intro h
-  have hsd : SameDpid orphanOps := by
-    intro c d d' h1 h2
-    simp [orphanOps, hs] at h1 h2
-    omega
-  obtain ⟨c', hc'⟩ := h orphanOps hsd 0 5 (by decide) (by decide) (by decide) (by decide)
-  have hnone : (run Cfg.current orphanOps).1.reg (some 5) = none := by decide
+  obtain ⟨c', hc'⟩ := h orphanOps 0 5 (by decide) (by decide) (by decide) (by decide)
+  have hnone : (run Cfg.repaired orphanOps).1.reg (some 5) = none := by decide
   rw [hnone] at hc'; cases hc'
-
-/-- `registry_exact` needs `SameDpid`: a features reply with another datapath id on an established connection moves the
-connection to the new key and leaves the old key behind, pointing at it even after it is closed (finding C09-5; the code
-as it stands, `Cfg.current`) -/
-def dpidChangeOps : List Op := [.connect] ++ hs 0 5 6 ++ [.msg 0 (.featuresReply 6), .eof 0]
-
-theorem registry_samedpid_needed_defect :
-    (run Cfg.current dpidChangeOps).1.reg (some 5) = some 0 ∧ ((run Cfg.current dpidChangeOps).1.conns 0).disc = true ∧
-    ((run Cfg.current dpidChangeOps).1.conns 0).closed = true := by decide
-
-/-- … and with fixes/C09-5_features_reply_new_dpid.diff (`Cfg.repaired`) the same history leaves no stale entry: after the
-features reply the connection is reachable under 6 only, after the close under neither (`registry_exact true` needs no
-hypothesis on the datapath ids) -/
-example : (run Cfg.repaired (dpidChangeOps.take 6)).1.reg (some 5) = none ∧
-    (run Cfg.repaired (dpidChangeOps.take 6)).1.reg (some 6) = some 0 ∧
-    (run Cfg.repaired dpidChangeOps).1.reg (some 5) = none ∧ (run Cfg.repaired dpidChangeOps).1.reg (some 6) = none := by decide
-example : ¬ SameDpid dpidChangeOps := by
-  intro h; have := h 0 5 6 (by decide) (by decide); cases this
 
 /-- the wider reading of `early_ps`: every port-status message that arrives on a connection before its ConnectionUp is
 raised once the connection is announced -/
 def early_ps_full : Prop :=
   ∀ (ops : List Op) (c n : Nat) later o earlier,
-    (run Cfg.current ops).2 = later ++ (Op.msg c (.portStatus n), o) :: earlier →
-    (outs earlier).count (upEv true c) = 0 → (outs (run Cfg.current ops).2).count (upEv true c) = 1 →
-    Out.ev ⟨true, .portStatus, c, n⟩ ∈ outs (run Cfg.current ops).2
+    (run Cfg.repaired ops).2 = later ++ (Op.msg c (.portStatus n), o) :: earlier →
+    (outs earlier).count (upEv true c) = 0 → (outs (run Cfg.repaired ops).2).count (upEv true c) = 1 →
+    Out.ev ⟨true, .portStatus, c, n⟩ ∈ outs (run Cfg.repaired ops).2
 
 /-- port-status 9 arrives before the features reply and is dropped (`handle_PORT_STATUS`, of_01.py:369-372, returns when
 `_deferred_port_status is None`); 7 and 8 arrive after it and are raised.  Not treated as a defect: the features reply's
@@ -258,10 +372,38 @@ def earlyPsOps : List Op :=
 
 theorem early_ps_full_defect : ¬ early_ps_full := by
   intro h
-  have := h earlyPsOps 0 9 ((run Cfg.current earlyPsOps).2.take 5) [] ((run Cfg.current earlyPsOps).2.drop 6) (by decide) (by decide) (by decide)
+  have := h earlyPsOps 0 9 ((run Cfg.repaired earlyPsOps).2.take 5) [] ((run Cfg.repaired earlyPsOps).2.drop 6) (by decide) (by decide) (by decide)
   revert this; decide
 
-/-! ### the four defects repaired by fixes/*.diff, on the model of the code as first read (`Cfg.head`) -/
+/-! ## Reverted trees: regression witnesses (what each committed repair removed) -/
+
+/-- C09-5 reverted (`Cfg.without5 = Cfg.rv false`): a features reply with another datapath id on an established connection moves
+the connection to the new key and leaves the old key behind, pointing at it even after it is closed.  This is why the `_v`
+form of `registry_exact_partial` needs `SameDpid` at `v = false`; on the tree as it stands (`Cfg.repaired`) the same
+history leaves no stale entry. -/
+def dpidChangeOps : List Op := [.connect] ++ hs 0 5 6 ++ [.msg 0 (.featuresReply 6), .eof 0]
+
+theorem registry_samedpid_needed_defect :
+    (run Cfg.without5 dpidChangeOps).1.reg (some 5) = some 0 ∧ ((run Cfg.without5 dpidChangeOps).1.conns 0).disc = true ∧
+    ((run Cfg.without5 dpidChangeOps).1.conns 0).closed = true := by decide
+example : (run Cfg.repaired (dpidChangeOps.take 6)).1.reg (some 5) = none ∧
+    (run Cfg.repaired (dpidChangeOps.take 6)).1.reg (some 6) = some 0 ∧
+    (run Cfg.repaired dpidChangeOps).1.reg (some 5) = none ∧ (run Cfg.repaired dpidChangeOps).1.reg (some 6) = none := by decide
+example : ¬ SameDpid dpidChangeOps := by
+  intro h; have := h 0 5 6 (by decide) (by decide); cases this
+
+/-- C09-6 reverted (`stopIfDisc = false`): with a ConnectionUp listener that disconnects the connection the announcement carried
+on — connection-level ConnectionDown BEFORE connection-level ConnectionUp, then FeaturesReceived for a dead connection;
+the tree as it stands (`stopIfDisc = true`) stops after the nexus-level raise (`up_once_listeners`). -/
+theorem up_listener_disconnects_regression :
+    (runL Cfg.repaired { up := some .disc } ([.connect] ++ hs 0 5 6)).2.head?.map (·.2) =
+      some [.reg (some 5) 0, .ev ⟨true, .handshakeComplete, 0, 0⟩, .ev ⟨true, .up, 0, 0⟩, .ev ⟨true, .down, 0, 0⟩,
+            .ev ⟨false, .down, 0, 0⟩, .ev ⟨false, .up, 0, 0⟩, .ev ⟨true, .features, 0, 0⟩, .ev ⟨false, .features, 0, 0⟩] ∧
+    (runL Cfg.repaired { up := some .disc, stopIfDisc := true } ([.connect] ++ hs 0 5 6)).2.head?.map (·.2) =
+      some [.reg (some 5) 0, .ev ⟨true, .handshakeComplete, 0, 0⟩, .ev ⟨true, .up, 0, 0⟩, .ev ⟨true, .down, 0, 0⟩,
+            .ev ⟨false, .down, 0, 0⟩] := by decide
+
+/-! ### D03, C09-1, C09-2, C09-3 reverted: the model of the code as first read (`Cfg.head`) -/
 
 /-- D3: the datapath reconnects (connection 1), then the stale connection 0 closes: `_disconnect(dpid)` removes the live
 entry and `sendToDPID` fails although connection 1 is live, announced and has datapath id 5 -/
@@ -292,49 +434,56 @@ theorem dispatch_after_disconnect_defect :
 theorem error_closes_defect :
     Out.closed 0 ∈ (step Cfg.head (run Cfg.head ([.connect] ++ hs 0 5 6)).1 (.msg 0 (.error 9 1 1))).2 := by decide
 
-/-- C09-6 (open finding; repaired by fixes/C09-6_finish_connecting_stops_when_disconnected.diff): with a ConnectionUp listener
-that disconnects the connection, the code as it stands raises the connection-level ConnectionDown BEFORE the
-connection-level ConnectionUp and goes on to FeaturesReceived; with the fix (`stopIfDisc`) the announcement stops. -/
-theorem up_listener_disconnects_defect :
-    (runL Cfg.current { up := some .disc } ([.connect] ++ hs 0 5 6)).2.head?.map (·.2) =
-      some [.reg (some 5) 0, .ev ⟨true, .handshakeComplete, 0, 0⟩, .ev ⟨true, .up, 0, 0⟩, .ev ⟨true, .down, 0, 0⟩,
-            .ev ⟨false, .down, 0, 0⟩, .ev ⟨false, .up, 0, 0⟩, .ev ⟨true, .features, 0, 0⟩, .ev ⟨false, .features, 0, 0⟩] ∧
-    (runL Cfg.current { up := some .disc, stopIfDisc := true } ([.connect] ++ hs 0 5 6)).2.head?.map (·.2) =
-      some [.reg (some 5) 0, .ev ⟨true, .handshakeComplete, 0, 0⟩, .ev ⟨true, .up, 0, 0⟩, .ev ⟨true, .down, 0, 0⟩,
-            .ev ⟨false, .down, 0, 0⟩] := by decide
-
 /-! ## Non-vacuity: the hypotheses of the theorems are met by concrete, non-trivial histories -/
 
 /-- D3's history on the repaired model: ConnectionUp for both connections, one ConnectionDown (for 0), datapath 5 still
 reaches connection 1 -/
 example : SameDpid d3Ops := by
   intro c d d' h1 h2; simp [d3Ops, hs] at h1 h2; omega
-example : (run Cfg.current d3Ops).1.reg (some 5) = some 1 ∧ lastReg (run Cfg.current d3Ops).2 (some 5) = some 1 ∧
-    (step Cfg.current (run Cfg.current d3Ops).1 (.sendTo 5 99)).2 = [.sent 1 OFPT_BARRIER_REQUEST 99, .sendRet true] ∧
-    (outs (run Cfg.current d3Ops).2).count (upEv true 0) = 1 ∧ (outs (run Cfg.current d3Ops).2).count (upEv true 1) = 1 ∧
-    (outs (run Cfg.current d3Ops).2).count (downEv true 0) = 1 ∧ (outs (run Cfg.current d3Ops).2).count (downEv true 1) = 0 ∧
-    Out.closed 0 ∈ outs (run Cfg.current d3Ops).2 := by decide
+example : (run Cfg.repaired d3Ops).1.reg (some 5) = some 1 ∧ lastReg (run Cfg.repaired d3Ops).2 (some 5) = some 1 ∧
+    (step Cfg.repaired (run Cfg.repaired d3Ops).1 (.sendTo 5 99)).2 = [.sent 1 OFPT_BARRIER_REQUEST 99, .sendRet true] ∧
+    (outs (run Cfg.repaired d3Ops).2).count (upEv true 0) = 1 ∧ (outs (run Cfg.repaired d3Ops).2).count (upEv true 1) = 1 ∧
+    (outs (run Cfg.repaired d3Ops).2).count (downEv true 0) = 1 ∧ (outs (run Cfg.repaired d3Ops).2).count (downEv true 1) = 0 ∧
+    Out.closed 0 ∈ outs (run Cfg.repaired d3Ops).2 := by decide
 /-- a reconnect AFTER the stale connection was closed satisfies `NoOverlapAlong`; datapath 5 reaches connection 1 -/
 def reconnectOps : List Op := [.connect] ++ hs 0 5 6 ++ [.eof 0, .connect] ++ hs 1 5 12
-example : NoOverlapAlong false (init, []) reconnectOps := noOverlapAlong_of_B _ _ _ (by decide)
+example : NoOverlapAlong true (init, []) reconnectOps := noOverlapAlong_of_B _ _ _ (by decide)
 example : SameDpid reconnectOps := by
   intro c d d' h1 h2; simp [reconnectOps, hs] at h1 h2; omega
-example : (run Cfg.current reconnectOps).1.reg (some 5) = some 1 ∧ LiveUp (run Cfg.current reconnectOps).1 1 5 := by
+example : (run Cfg.repaired reconnectOps).1.reg (some 5) = some 1 ∧ LiveUp (run Cfg.repaired reconnectOps).1 1 5 := by
   refine ⟨by decide, by decide, by decide, by decide, by decide⟩
 /-- the overlapping history of D3 does not satisfy it (both connections are live when 1 is announced) -/
-example : noOverlapAlongB false (init, []) d3Ops = false := by decide
+example : noOverlapAlongB true (init, []) d3Ops = false := by decide
 /-- the split hypothesis of `up_once`/`early_ps` holds with the barrier reply as the announcing step, and that step's
 output is the announcement followed by the two deferred port-status (7 then 8), not the dropped 9 -/
-example : ∃ o earlier, (run Cfg.current earlyPsOps).2 = [] ++ (Op.msg 0 (.barrierReply 6), o) :: earlier ∧
+example : ∃ o earlier, (run Cfg.repaired earlyPsOps).2 = [] ++ (Op.msg 0 (.barrierReply 6), o) :: earlier ∧
     Out.ev ⟨true, .up, 0, 0⟩ ∈ o ∧ psSince earlier 0 = [7, 8] ∧
     o = finHead (some 5) 0 ++ ev2 .portStatus 0 7 ++ ev2 .portStatus 0 8 :=
   ⟨_, _, rfl, by decide, by decide, by decide⟩
 /-- a send error on an announced connection: disconnected, ConnectionDown deferred until the task closes it -/
 example : let ops := [Op.connect] ++ hs 0 5 6 ++ [.sockFail 0, .sendTo 5 1]
-    ((run Cfg.current ops).1.conns 0).disc = true ∧ (outs (run Cfg.current ops).2).count (downEv true 0) = 0 ∧
-    ((run Cfg.current ops).1.conns 0).broken = true ∧ Out.closed 0 ∉ outs (run Cfg.current ops).2 ∧
-    (outs (run Cfg.current (ops ++ [.eof 0])).2).count (downEv true 0) = 1 := by decide
+    ((run Cfg.repaired ops).1.conns 0).disc = true ∧ (outs (run Cfg.repaired ops).2).count (downEv true 0) = 0 ∧
+    ((run Cfg.repaired ops).1.conns 0).broken = true ∧ Out.closed 0 ∉ outs (run Cfg.repaired ops).2 ∧
+    (outs (run Cfg.repaired (ops ++ [.eof 0])).2).count (downEv true 0) = 1 := by decide
 /-- `close_only_when_lost`: a message on a disconnected connection makes the task close it -/
-example : Out.closed 0 ∈ (step Cfg.current (run Cfg.current ([.connect] ++ hs 0 5 6 ++ [.disc 0])).1 (.msg 0 (.packetIn 1))).2 := by decide
+example : Out.closed 0 ∈ (step Cfg.repaired (run Cfg.repaired ([.connect] ++ hs 0 5 6 ++ [.disc 0])).1 (.msg 0 (.packetIn 1))).2 := by decide
+
+/-- `up_raised`: its hypotheses hold for a connection that has said hello, with a port-status, the desc reply, another
+connection being accepted and an echo request arriving before the barrier reply (xid 6 = next xid 4 + 2) -/
+example : let ops := [Op.connect, .msg 0 .hello]
+    let mid := [Op.msg 0 (.portStatus 7), .msg 0 .statsDesc, .connect, .msg 0 (.echoRequest 3), .msg 1 (.featuresReply 5)]
+    (0 < (run Cfg.repaired ops).1.n ∧ ((run Cfg.repaired ops).1.conns 0).up = false ∧ ((run Cfg.repaired ops).1.conns 0).disc = false ∧
+      ((run Cfg.repaired ops).1.conns 0).broken = false ∧ (run Cfg.repaired ops).1.nextXid + 2 = 6) ∧
+    (∀ op ∈ mid, Harmless 0 6 op) ∧
+    upEv false 0 ∈ (step Cfg.repaired (run Cfg.repaired (ops ++ .msg 0 (.featuresReply 5) :: mid)).1 (.msg 0 (.barrierReply 6))).2 := by
+  refine ⟨by decide, ?_, by decide⟩
+  intro op hop
+  simp only [List.mem_cons, List.not_mem_nil, or_false] at hop
+  rcases hop with rfl | rfl | rfl | rfl | rfl <;> simp [Harmless]
+/-- the listener theorems: a ConnectionUp listener that disconnects and a ConnectionDown listener that calls sendToDPID, on
+the overlapping history of D3 — connection-level ConnectionUp is never raised, one ConnectionDown each -/
+example : let l : Lst := { up := some .disc, down := true, stopIfDisc := true }
+    (outs (runL Cfg.repaired l d3Ops).2).count (upEv true 1) = 1 ∧ (outs (runL Cfg.repaired l d3Ops).2).count (upEv false 1) = 0 ∧
+    (outs (runL Cfg.repaired l d3Ops).2).count (downEv false 1) = 1 ∧ (runL Cfg.repaired l d3Ops).1.reg (some 5) = none := by decide
 
 end Pox.C09
